@@ -95,7 +95,7 @@ func Gen(o GenOpts) *rapid.Generator[Script] {
 			wide = false
 		}
 		ps := genPrios(t, maxN, wide)
-		if mh0 := minH(s.Div, ps); mh0 == 0 || mh0 > 600 || (mh0 > 64 && !o.Thorough) {
+		if mh0 := minH(s.Div, ps); mh0 == 0 || mh0 > 150 || (mh0 > 64 && !o.Thorough) {
 			// keep the number of handlers (hence items in flight per script) moderate
 			ps = ps[:1]
 		}
@@ -130,6 +130,22 @@ func Gen(o GenOpts) *rapid.Generator[Script] {
 				if allSubsetsFilled(s.Div, all, h) {
 					mh = h
 					break
+				}
+			}
+		}
+		if mh > 200 {
+			// serving every subset of widely spread priorities needs hundreds of handlers: keep the
+			// script affordable by dropping to the highest priority alone
+			ps = ps[:1]
+			all = append(append([]uint(nil), ps...), extra...)
+			sort.Slice(all, func(i, j int) bool { return all[i] > all[j] })
+			mh = minH(s.Div, ps)
+			if o.NoZero || (o.AddRemove && s.Ver == 1) {
+				for h := mh; h < mh+4000; h++ {
+					if allSubsetsFilled(s.Div, all, h) {
+						mh = h
+						break
+					}
 				}
 			}
 		}
